@@ -62,6 +62,31 @@ def cases(tier, seed):
     return out
 
 
+def _reorder_sections(o):
+    """o with the key order of every nested mapping reversed (top level untouched); None if nothing changes"""
+    changed = [False]
+
+    def rev(v, top):
+        if isinstance(v, dict):
+            items = list(v.items())
+            if not top and len(items) > 1:
+                items.reverse()
+                changed[0] = True
+            return {k: rev(x, False) for k, x in items}
+        if isinstance(v, list):
+            return [rev(x, False) for x in v]
+        return copy.deepcopy(v)
+
+    out = rev(o, True)
+    return out if changed[0] else None
+
+
+def _show_order(o):
+    import json
+
+    return json.dumps(o, default=repr)
+
+
 def _uses_all(term):
     from ..terms import walk
 
@@ -163,6 +188,14 @@ def check_term(label, term, dicts, res, digest=None, light=False):
                 fr = observe(wk, lambda: objk.fingerprint(orev))
                 if not fr.ok or fr.value != fp:
                     fail("key-order-changes-fingerprint", o, f"{fp!r} vs {fr!r}")
+        # the same dictionary with the entries of every nested section written in the opposite order: the
+        # values under the reported keys are equal, so the fingerprint must be
+        oin = _reorder_sections(o)
+        if oin is not None:
+            kr = observe(wk, lambda: objk.keys(copy.deepcopy(oin)))
+            fr = observe(wk, lambda: objk.fingerprint(copy.deepcopy(oin)))
+            if not kr.ok or set(kr.value) != keys or not fr.ok or fr.value != fp:
+                fail("section-entry-order-changes-fingerprint", o, f"re-ordered={_show_order(oin)} keys={kr!r} fp={fr!r} expected keys={sorted(keys)} fp={fp!r}")
         proj = freeze(sorted((k, freeze(lookup(o, k))) for k in keys if exists(o, k)))
         rows.append((o, keys, proj, fp))
     # (c) fingerprint is a function of (reported keys, values) and injective in them
